@@ -144,7 +144,7 @@ c.ensures("main/ignores-sigint-and-sigterm-before-reading",
           "log_before('signal', 'open')", prop="C12")
 c.raises("main/only-a-failing-warning-or-open-escapes", "BaseException")
 c.modifies("G.cleanup_folder", "G.cleanup_file", "G.cleanup_semlock", "G.cleanup_seq", "G.fd_open", "G.sig_blocked")
-c.assumes("A-warn", "A-kernel")
+c.assumes("A-warn", "A-kernel")   # inside the request loop a raised warning is caught by the loop's error barrier; the sweep (own contract) does not assume A-warn
 
 i = M.invariant("main", 1, "while True:")
 for t in TYPES:
@@ -207,7 +207,9 @@ c.ensures("sweep/nothing-else-destroyed",
 c.ensures("sweep/a-failing-cleanup-does-not-stop-the-rest", "True")
 c.raises_only("sweep/no-exception")
 c.modifies("G.cleanup_folder", "G.cleanup_file", "G.cleanup_semlock", "G.cleanup_seq")
-c.assumes("A-warn")
+# the tracker is started with the parent's interpreter flags (-W error included): inside the sweep a warning may be raised instead of printed
+c.warn_may_raise = True
+c.replay_for("sweep/no-exception", "tracker_sweep_w_error")
 i2 = S.invariant(UR, 0, "for name in rtype_registry:")
 i2.inv("visited-destroyed-once", "forall(Str, lambda n: implies(mem(__seen0, n), cleanups(rtype, n) == old(cleanups(rtype, n)) + 1))")
 i2.inv("unvisited-untouched", "forall(Str, lambda n: implies(not mem(__seen0, n), cleanups(rtype, n) == old(cleanups(rtype, n))))")
@@ -224,6 +226,7 @@ c.ensures("sweep/every-type-swept-once-folders-last",
 c.at_call(UR, "sweeps-the-table-of-its-type", "arg_rtype_registry is registry[arg_rtype]", prop=["C11", "C13"])
 c.ensures("loop/left-only-at-end-of-file", "tail(True) and has_loop()", prop=["C11", "C12", "C13"])
 
+S.contracts[f"{RT}:main"].replay_for("loop1/preserve", "tracker_step")
 S.contracts[f"{RT}:main"].replay_for("loop1/iteration/step", "tracker_step", nfields=f"len({FIELDS})", cmd=CMD, rtype=RTYPE, name=NAME,
                                   pre_count=CNT0)
 
